@@ -24,6 +24,7 @@ class DirectTask:
         self.spin_n = 0
         self.spun = False
         self.in_py_tick = False
+        self.low = False
         self.timeout_at = None
         self.timeout_obj = None
         self.greenlet = False
